@@ -24,6 +24,8 @@ FIXMAP = [
  ("fix: a call assigned to the last parameter", ("C02", "F-CALL1")),
  ("fix: 'x = f() and y' kept the old x", ("C01", "F-LOGIC1")),
  ("fix: string.match clamps init", ("C14", "F-STR3b")),
+ ("fix: 'return coroutine.yield(...)' left", ("C06", "F-CO5")),
+ ("fix: resuming a coroutine that waits", ("C06", "F-CO1")),
  ("fix: NumUsedRegisters did not cover", ("C07", "F-REG1")),
  ("fix: jumps longer than the sBx range", ("C07", "F-CMP2")),
  ("fix: bulk-move merging swallowed", ("C07", "F-MOVEN1")),
